@@ -83,6 +83,13 @@ def _anc(mod: Any, n: ast.AST, stop: ast.AST) -> List[ast.AST]:
     return out
 
 
+def _global_or_none(mod: Any, name: str) -> Any:
+    try:
+        return mod.global_assign(name)
+    except AnalysisError:
+        return ast.Constant(value=None)
+
+
 def run(ctx: Any, prog: Program) -> None:
     vtf = prog.module('vtf')
     py = prog.module('_py_vtf_readwrite')
@@ -969,7 +976,9 @@ def run(ctx: Any, prog: Program) -> None:
     # names the header was unpacked into, and nothing re-binds them in between (a per-frame `[duration] = ...` under the same name overwrites
     # the total with the last frame's duration)
     hdr = [a for a in ast.walk(fr_) if isinstance(a, ast.Assign) and isinstance(a.targets[0], ast.Tuple) and len(a.targets[0].elts) == 4 and all(isinstance(e, ast.Name) for e in a.targets[0].elts)
-           and isinstance(a.value, ast.Call) and (dotted(a.value.func) or '').endswith('unpack_from') and a.value.args and isinstance(a.value.args[0], ast.Constant) and a.value.args[0].value == '<Ixxx?If']
+           and isinstance(a.value, ast.Call) and (dotted(a.value.func) or '').endswith('unpack_from') and a.value.args
+           and ((isinstance(a.value.args[0], ast.Constant) and a.value.args[0].value == '<Ixxx?If')
+                or (isinstance(a.value.func, ast.Attribute) and isinstance(a.value.func.value, ast.Name) and "'<Ixxx?If'" in U(_global_or_none(vtf, a.value.func.value.id))))]
     ctors6 = [c for c in ast.walk(fr_) if isinstance(c, ast.Call) and dotted(c.func) == 'SheetSequence']
     if len(hdr) != 1 or len(ctors6) != 1:
         ctx.shape('C15.F6', False, vtf, fr_, 'sequence header unpack / SheetSequence(...) construction not found once', func='SheetSequence.from_resource', text='sequence constructor linkage')
